@@ -11,6 +11,7 @@ CONSTANTS
   PREC = 100
   UNBOND = 2
   HOLDOPS = {"o1"}
+  HOOKED = TRUE
   AMOUNTS = {1,2,3,5}
   NONCES = {1,2,3,4}
   TXHS = {"t1","t2"}
